@@ -61,6 +61,25 @@ def w_hier(case):
                          % (name, lab), 'expected': exp, 'observed': facts,
                          'behaviour': 'agree'})
             continue
+        if name == 'posterior':
+            # outside the support of the prior (and at a rejected population
+            # value): the gradient keeps its length
+            up = chi.HierarchicalLogPosterior(hl, pints.ComposedLogPrior(*[
+                pints.UniformLogPrior(100, 101) for _ in range(nt)]))
+            lens = {}
+            for tag, o2, xx in (('outside_prior', up, x),
+                                ('negated_top', o, np.concatenate(
+                                    (x[:nb], -np.abs(x[nb:]))))):
+                try:
+                    s2, g2 = o2.evaluateS1(xx.copy())
+                    lens[tag] = len(g2)
+                except Exception as e:
+                    lens[tag] = 'raise:%s' % type(e).__name__
+            if any(v != nb + nt for v in lens.values()):
+                viol.append({'sub': 'grad_rejected', 'message': 'gradient returned '
+                             'at a rejected point does not have length n_parameters '
+                             '(%s)' % lab, 'expected': nb + nt, 'observed': lens,
+                             'behaviour': 'grad_rejected'})
         marks = [i is not None for i in ids]
         if marks != [True] * nb + [False] * nt:
             viol.append({'sub': 'id_marks', 'message': 'non-None IDs do not mark '
@@ -368,6 +387,42 @@ def w_objects(case):
             viol.append({'sub': 'outputs', 'message': 'output names / count '
                          'disagree', 'expected': pm.get_n_outputs(),
                          'observed': pm.get_output_names()})
+    elif kind == 'shared_em':
+        # one error model instance given for several outputs
+        em = chi.GaussianErrorModel() if case['em'] == 'G' else \
+            chi.ConstantAndMultiplicativeGaussianErrorModel()
+        per = 1 if case['em'] == 'G' else 2
+        k = case['n_out']
+        exp_names = ['p0', 'p1'] + [
+            'o%d %s' % (j, n_) for j in range(k) for n_ in em.get_parameter_names()]
+        if case['obj'] == 'll':
+            o = chi.LogLikelihood(ToyModel(2, k), [em] * k,
+                                  [[1.0, 2.0]] * k, [[0.2, 0.9]] * k)
+            got = o.get_parameter_names()
+            n = o.n_parameters()
+        elif case['obj'] == 'pred':
+            o = chi.PredictiveModel(ToyModel(2, k), [em] * k)
+            got = o.get_parameter_names()
+            n = o.n_parameters()
+        else:
+            o = chi.ProblemModellingController(ToyModel(2, k), [em] * k)
+            rows = [{'ID': 1, 'Time': t, 'Observable': 'o%d' % j, 'Value': 1.0 + t}
+                    for j in range(k) for t in (0.3, 1.1)]
+            o.set_data(pd.DataFrame(rows), output_observable_dict={
+                'o%d' % j: 'o%d' % j for j in range(k)})
+            got = o.get_parameter_names()
+            n = o.get_n_parameters()
+        if list(got) != exp_names or n != 2 + per * k:
+            viol.append({'sub': 'shared_em', 'message': 'names with one error model '
+                         'instance given for %d outputs (%s) are not the documented '
+                         'distinct output-prefixed names' % (k, case['obj']),
+                         'expected': exp_names, 'observed': list(got),
+                         'behaviour': 'shared_em'})
+        if list(em.get_parameter_names()) != list(type(em)().get_parameter_names()):
+            viol.append({'sub': 'shared_em_user', 'message': 'the user\'s error '
+                         'model was renamed', 'expected': 'unchanged',
+                         'observed': em.get_parameter_names(),
+                         'behaviour': 'shared_em'})
     elif kind == 'ctrl':
         c = chi.ProblemModellingController(ToyModel(2, 1), chi.GaussianErrorModel())
         rows = []
@@ -455,6 +510,10 @@ def w_objects(case):
                 if not isinstance(m, chi.ReducedMechanisticModel):
                     m = chi.ReducedMechanisticModel(m)
                 m.fix_parameters({m.parameters()[op[1]]: 0.7})
+            elif op[0] == 'rel':
+                if isinstance(m, chi.ReducedMechanisticModel):
+                    m.fix_parameters({n_: None for n_ in
+                                      m.mechanistic_model().parameters()})
         n = m.n_parameters()
         x = vals.reals('c17.mech', n, 0.4, 1.2, 0)
         res = m.simulate(x, [0.4, 1.3])
@@ -515,6 +574,11 @@ def build(tier, seed):
                 [{'p0': 1.0}, {'p0': None}]):
         objs.append({'kind': 'pred', 'ops': ops})
         objs.append({'kind': 'pred', 'ops': ops, 'outputs': ['o1', 'o0']})
+    for obj in ('ll', 'pred', 'ctrl'):
+        for em in ('G', 'CM'):
+            for k in (2, 3):
+                objs.append({'kind': 'shared_em', 'obj': obj, 'em': em, 'n_out': k,
+                             'ops': []})
     pops = [None, rp.Comp([rp.G(1), rp.P(1), rp.H(1)]),
             rp.Comp([rp.Cov(rp.LN(1), 1), rp.G(1, False), rp.P(1)]), rp.H(3),
             rp.Comp([rp.H(1), rp.LN(2)])]
@@ -536,7 +600,7 @@ def build(tier, seed):
                         [1.3, 0.4, 2.2][:n_obs + 1], n_obs, seed)})
     mops = [['adm', True], ['adm', False], ['out', ['global.tumour_volume']],
             ['out', ['central.drug_concentration', 'global.tumour_volume']],
-            ['sens', True], ['sens', False], ['red', 0], ['red', 2]]
+            ['sens', True], ['sens', False], ['red', 0], ['red', 2], ['rel']]
     for r in range(0, 3 if tier == 'quick' else 4):
         for seq in itertools.product(mops, repeat=r):
             # a reduced wrapper only offers a subset of the calls
@@ -544,6 +608,13 @@ def build(tier, seed):
             if idx and any(o[0] == 'adm' for o in seq[idx[0]:]):
                 continue
             objs.append({'kind': 'mech', 'ops': [list(o) for o in seq]})
+    # fix / release cycles with sensitivities switched on somewhere on the way
+    for seq in itertools.permutations(
+            [['sens', True], ['red', 0], ['red', 2], ['rel']], 3):
+        if ['rel'] in [list(o) for o in seq]:
+            objs.append({'kind': 'mech', 'ops': [list(o) for o in seq]})
+            objs.append({'kind': 'mech', 'ops': [list(o) for o in seq]
+                         + [['red', 1]]})
     # sub-models constructed for their own numbers of individuals
     ctor = []
     # (a covariate model around a heterogeneous model has no subpopulation
